@@ -180,6 +180,7 @@ def r10_2(prog, out):
 
 
 @rule("C10", "R10.3", "nothing is created when a create request is rejected", floor=2)
+@rule("C17", "R10.3", "nothing is created when a create request is rejected", floor=2)
 def r10_3(prog, out):
     A = prog.anchors
     submap = A.cell("SubState", "subscriptions")
@@ -281,7 +282,19 @@ def r10_4(prog, out):
 
 
 @rule("C10", "R10.5", "a subscription read back reports the name, topic, effective deadline and push config it was created with", floor=5)
-@rule("C11", "R10.5", "a subscription read back reports the name, topic, effective deadline and push config it was created with", floor=5)
+def r10_5_c10(prog, out):
+    r10_5(prog, out)
+
+
+@rule("C11", "R10.5", "a subscription read back reports its (weak) topic reference, or the deleted-topic sentinel", floor=3)
+def r10_5_c11(prog, out):
+    """C11 is about the topic a subscription reports; the other read-back fields are C10's"""
+    from engine import Out
+    tmp = Out(out.rid)
+    r10_5(prog, tmp)
+    out.items.extend(it for it in tmp.items if it.key.endswith(":topic"))
+
+
 def r10_5(prog, out):
     A = prog.anchors
     sl = Slicer(prog)
@@ -322,13 +335,30 @@ def r10_5(prog, out):
                 out.holds(key, bi.loc(bb), "%s <- PushConfig.%s" % (f, src))
             else:
                 out.violation(key, bi.loc(bb), "push_config.%s read back is not the stored %s" % (f, src))
-    # SubscriptionInfo is immutable
+    # SubscriptionInfo is immutable -- except that the push config may be *replaced by one a client supplied* (ModifyPushConfig:
+    # the value written is the payload of the actor request being handled, nothing the server computes)
     for f in ("name", "ack_deadline", "push_config"):
         cell = A.cell("SubscriptionInfo", f)
         ws = [(b, e) for b in prog.facts.bodies for e in prog.effects(b) if e.kind in ("write", "take") and not e.chain and e.touches(cell)]
-        if ws:
-            out.violation("info-immutable:%s" % f, prog.loc(ws[0][0], ws[0][1].bb), "SubscriptionInfo.%s is modified after creation" % f)
-    out.holds("info-immutable", "", "SubscriptionInfo fields are only set at construction")
+        bad = []
+        for (b, e) in ws:
+            if f == "push_config" and e.kind == "write" and e.extra:
+                wi = prog.info(b)
+                st = wi.stmt(*e.extra)
+                if st is not None and st.k == "assign" and st.rv.ops:
+                    sv = sl.of(b, st.rv.ops[0])
+                    pb = prog.facts.body(b)
+                    rootb = prog.facts.body(pb.root) if pb.root else pb
+                    in_actor = (pb.impl_self or (rootb.impl_self if rootb else None)) == A.ty("SubscriptionActor")
+                    from_request = bool(sv.roots) and all(r[0] in ("param", "upvar") for r in sv.roots) and not sv.calls - {c for c in sv.calls if c.split("::")[-1] in
+                                                                                                                 ("clone", "into", "from", "take", "map", "filter", "is_empty", "as_ref", "cloned", "deref")}
+                    if in_actor and from_request:
+                        out.holds("info-replaced:%s:%s" % (f, prog.short(b)), prog.loc(b, e.bb), "replaced only by the push config carried by the request being handled")
+                        continue
+            bad.append((b, e))
+        if bad:
+            out.violation("info-immutable:%s" % f, prog.loc(bad[0][0], bad[0][1].bb), "SubscriptionInfo.%s is modified after creation" % f)
+    out.holds("info-immutable", "", "SubscriptionInfo fields are only set at construction (or, for the push config, replaced by a client-supplied one)")
 
 
 @rule("C10", "R10.6", "a handle method returns only after the actor has answered (the effect is applied when the call returns)", floor=11)
@@ -387,7 +417,14 @@ def r10_7(prog, out):
                     out.undecided(key, bi.loc(bb), "request built but not sent from this body")
                     continue
                 errs = error_blocks(bi)
-                esc = bi.cfg.escapes(0, {a.ready_bb for a in sends if a.ready_bb is not None} | errs, after=False)
+                rb = prog.facts.body(bi.body.root) if bi.body.root else bi.body
+                is_handle = (bi.body.impl_self or (rb.impl_self if rb else None) or "") in (prog.anchors.ty("Topic"), prog.anchors.ty("Subscription"))
+                if is_handle:
+                    esc = bi.cfg.escapes(0, {a.ready_bb for a in sends if a.ready_bb is not None} | errs, after=False)
+                else:
+                    # the handle method was written (or spliced) into a handler / stream body: from the point the request is
+                    # built, it is sent
+                    esc = bi.cfg.escapes(bb, {a.ready_bb for a in sends if a.ready_bb is not None} | errs, after=True)
                 if esc is None:
                     out.holds(key, bi.loc(sends[0].poll_bb), "every successful return passes the mailbox send")
                 else:
